@@ -8,8 +8,13 @@ and the object lists are read back (`cv list`, `cv list biases`).
 Oracles
   sanitizer   any ASan/UBSan report, signal or uncaught exception (a reference to a deleted object is a
               heap-use-after-free), keyed by report kind + innermost library frame
-  graph       `viol` of every deps report empty; `refdiff` (ref_count vs dependents recomputed from
-              scratch) empty
+  graph       `viol` of every deps report empty; `refdiff` (ref_count vs enabled dependents recomputed from
+              scratch): fewer references than dependents is a violation (the feature can be switched off
+              under them); more references than dependents is a violation too (pinned for ever) unless it
+              was left by a configuration the library REJECTED in the middle of the dependency resolution
+              (colvardeps::enable() does not roll back; measured on the real tree: only colvar scalar/linear
+              after a rejected ABF; nothing is switched off, so the property is not contradicted: counted).
+              Error lines printed while the module is destroyed at the end of a scenario are violations too.
   objects     the object lists follow the documented semantics (deleting a variable deletes the biases
               that use it, deleting a bias deletes nothing else, reset deletes everything, a rejected
               configuration leaves nothing behind) and the number of atoms the engine is asked for equals
@@ -1060,6 +1065,7 @@ def run_program(job):
         if op in ("addvar", "addbias") and not rejected:
             n = cmd[1] if op == "addvar" else bias_name(cmd[1], cmd[2])
             created[n] = i
+            res["kinds"].add(("var:" if op == "addvar" else "bias:") + cmd[1])
         before_v, before_b = o["vars"], o["biases"]
         if op == "step":
             stepcount += 1
@@ -1274,9 +1280,11 @@ def run(tier, replay):
     c = common.Check("C13", tier)
     c.use_flavour(FLAV)
     c.rule = ("programs over {add variable, add bias, delete bias, delete variable, reset, step, rejected configuration}: all valid "
-              "programs up to the stated length over the reduced alphabet (2 variables x 3 bias kinds, last command not a step) "
-              "plus random programs over 11 variable templates x 13 bias kinds; distinct = distinct programs after which the "
-              "object set had changed at least once (read back with cv list)")
+              "programs up to the stated length over the reduced alphabet (2 variables x {harmonic, abf, metadynamics, harmonic with "
+              "timeStepFactor 2}; a command is valid if it applies to the current object set; last command not a step, since steps "
+              "follow anyway) plus random programs over %d variable templates x %d bias kinds; every program is followed by one "
+              "synchronisation step and %d further steps and by the destruction of the module; distinct = distinct programs during "
+              "which the object set (read back with cv list) changed at least once" % (len(VARS), len(BIAS_KINDS), NFURTHER))
     c.assumptions = ["the engine simulator imposes positions and forces from a fixed list of %d frames; Gaussian noise of the extended "
                      "Lagrangian is zeroed, so every run is deterministic" % NFRAMES,
                      "error bits are cleared after every command, as a script-driven engine does after reporting an error",
@@ -1334,7 +1342,12 @@ def run(tier, replay):
         if res["tol_used"]:
             c.bump("differences_within_1e-13_after_slot_reordering", res["tol_used"])
         for k in sorted(res["kinds"]):
-            c.note_set("command_kinds_executed", k)
+            if k.startswith("var:"):
+                c.note_set("variable_templates_defined", k[4:])
+            elif k.startswith("bias:"):
+                c.note_set("bias_kinds_defined", k[5:])
+            else:
+                c.note_set("command_kinds_executed", k)
         if res["changed"]:
             c.nontrivial(res["prog"])
         for text in res["inconc"]:
@@ -1348,8 +1361,8 @@ def run(tier, replay):
             if keycount[key] <= 2:
                 c.violation(key, text, files)   # at most two witnesses per class are written out
         for cls, n in sorted(res.get("pinned", {}).items()):
-            c.bump("refcount_above_dependents_entries", n)
-            c.note_set("refcount_above_dependents_classes", cls)
+            c.bump("references_leaked_by_rejected_definitions_entries", n)
+            c.note_set("references_leaked_by_rejected_definitions_classes", cls)
         if job["kind"] == "random" and res["changed"]:
             c.sample({"program": res["prog"], "tfmode": job["tfmode"], "deps_reports": res["ndeps"], "survivors": res.get("nsurv")}, cap=4)
         shutil.rmtree(res["wd"], ignore_errors=True)
